@@ -49,10 +49,15 @@ def parse_kv(s):
     return d
 
 
-def assemble(tpl_path, repo=REPO):
+def assemble(tpl_path, repo=REPO, drop_lines=()):
     """returns (text, functions_under_contract[], items[], line_map) ; raises ExtractError"""
     out, fns, items = [], [], []
     lines = open(tpl_path, encoding='utf-8').read().split('\n')
+    for d in drop_lines:
+        n0 = len(lines)
+        lines = [l for l in lines if l.strip() != d.strip()]
+        if len(lines) != n0 - 1:
+            raise ExtractError('%s: probe line to drop not found exactly once: %s' % (tpl_path, d))
     i = 0
     while i < len(lines):
         ln = lines[i]
@@ -279,10 +284,10 @@ def failed_details(stderr):
     return [b.strip() for b in blocks if b.startswith('error') and 'aborting due to' not in b]
 
 
-def check_unit(unit, tpl_path, build_dir, repo=REPO, rlimit=20, extra=()):
+def check_unit(unit, tpl_path, build_dir, repo=REPO, rlimit=20, extra=(), drop_lines=(), crate=None):
     os.makedirs(build_dir, exist_ok=True)
-    text, fns, items = assemble(tpl_path, repo)
-    crate = unit
+    text, fns, items = assemble(tpl_path, repo, drop_lines)
+    crate = crate or unit
     rs = os.path.join(build_dir, crate + '.rs')
     with open(rs, 'w') as f:
         f.write(text)
